@@ -127,7 +127,7 @@ def main():
         w.append('#include <stdint.h>\n#include <stddef.h>')
         w.append('#include "%s"' % fm['header'])
         N = fm['name']
-        g_cases, s_cases, e_cases = [], [], []
+        g_cases, s_cases, e_cases, g2_cases = [], [], [], []
         fl_meta = []
         for k, f in enumerate(fm['flist']):
             if f['enum'] not in enums:
@@ -152,6 +152,9 @@ def main():
             else:
                 s_cases.append('        return;')
             e_cases.append('    case %d: return (uint64_t)%s;' % (k, f['enum']))
+            call0 = '%s((%s*)pdu, %s)' % (getf, T, f['enum'])
+            call1 = ('(uint64_t)%s((%s*)pdu)' % (gname, T)) if gname else '0'
+            g2_cases.append('    case %d: if (path == 0) { a = %s; pdu[byteidx] ^= (uint8_t)xorv; b = %s; } else { a = %s; pdu[byteidx] ^= (uint8_t)xorv; b = %s; } break;' % (k, call0, call0, call1, call1))
             fl_meta.append((f, hasg, hass, gname or '', sname or ''))
         w.append('uint64_t w%s_get(uint64_t fld, uint64_t path, uint8_t* pdu) {\n  switch (fld) {' % N)
         w += g_cases
@@ -159,6 +162,10 @@ def main():
         w.append('void w%s_set(uint64_t fld, uint64_t path, uint8_t* pdu, uint64_t v) {\n  switch (fld) {' % N)
         w += s_cases
         w.append('  }\n}')
+        w.append('/* read; the caller changes one byte of the buffer; read again - all inside one function, so that a getter\n * wrongly declared free of memory dependences (attribute const) shows as a stale second value */')
+        w.append('uint64_t w%s_get2(uint64_t fld, uint64_t path, uint8_t* pdu, uint64_t byteidx, uint64_t xorv, uint8_t* out8) {\n  uint64_t a = 0, b = 0;\n  switch (fld) {' % N)
+        w += g2_cases
+        w.append('  }\n  for (int i = 0; i < 8; i++) out8[i] = (uint8_t)(b >> (8 * (7 - i)));\n  return a;\n}')
         w.append('uint64_t w%s_enumv(uint64_t fld) {\n  switch (fld) {' % N)
         w += e_cases
         w.append('  }\n  return ~0ull;\n}')
@@ -194,6 +201,10 @@ def main():
   for (int i = 0; i < 8; i++) out8[i] = (uint8_t)(v64 >> (8 * (7 - i)));
   return (uint64_t)(int64_t)rc;
 }''' % {'N': N, 'vt': vt, 'fn': lg['get'], 'pt': gp[0][0], 'et': gp[1][0]})
+            w.append('''/* the caller's result object at an address chosen by the checker (e.g. in a read-only page) */
+uint64_t w%(N)s_lget_at(uint8_t* pdu, uint64_t id, uint8_t* resultloc) {
+  return (uint64_t)(int64_t)%(fn)s((%(pt)s)pdu, (%(et)s)(int)(int64_t)id, (%(vt)s*)(void*)resultloc);
+}''' % {'N': N, 'vt': vt, 'fn': lg['get'], 'pt': gp[0][0], 'et': gp[1][0]})
             w.append('''uint64_t w%(N)s_lset(uint8_t* pdu, uint64_t id, uint64_t v) {
   return (uint64_t)(int64_t)%(fn)s((%(pt)s)pdu, (%(et)s)(int)(int64_t)id, (%(vt)s)v);
 }''' % {'N': N, 'vt': sp[2][0], 'fn': lg['set'], 'pt': sp[0][0], 'et': sp[1][0]})
@@ -207,6 +218,7 @@ def main():
                     w.append('uint64_t w%s_linit(uint8_t* pdu, uint64_t arg) { (void)arg; return (uint64_t)(int64_t)%s((%s)pdu); }' % (N, lg['init'], ip[0][0]))
         if not has_l:
             w.append('uint64_t w%s_lget(uint8_t* pdu, uint64_t id, uint64_t nullval, uint8_t* out8) { (void)pdu; (void)id; (void)nullval; (void)out8; return 0; }' % N)
+            w.append('uint64_t w%s_lget_at(uint8_t* pdu, uint64_t id, uint8_t* resultloc) { (void)pdu; (void)id; (void)resultloc; return 0; }' % N)
             w.append('uint64_t w%s_lset(uint8_t* pdu, uint64_t id, uint64_t v) { (void)pdu; (void)id; (void)v; return 0; }' % N)
         if not has_linit:
             w.append('uint64_t w%s_linit(uint8_t* pdu, uint64_t arg) { (void)pdu; (void)arg; return 0; }' % N)
@@ -244,9 +256,11 @@ def main():
     names = [fm['name'] for fm in spec['formats']]
     for n in names:
         d.append('uint64_t w%s_get(uint64_t, uint64_t, uint8_t*); void w%s_set(uint64_t, uint64_t, uint8_t*, uint64_t);' % (n, n))
+        d.append('uint64_t w%s_get2(uint64_t, uint64_t, uint8_t*, uint64_t, uint64_t, uint8_t*);' % n)
         d.append('uint64_t w%s_getid(uint8_t*, uint64_t); void w%s_setid(uint8_t*, uint64_t, uint64_t);' % (n, n))
         d.append('void w%s_init(uint8_t*); uint64_t w%s_linit(uint8_t*, uint64_t);' % (n, n))
         d.append('uint64_t w%s_lget(uint8_t*, uint64_t, uint64_t, uint8_t*); uint64_t w%s_lset(uint8_t*, uint64_t, uint64_t);' % (n, n))
+        d.append('uint64_t w%s_lget_at(uint8_t*, uint64_t, uint8_t*);' % n)
         d.append('uint64_t w%s_fact(uint64_t, uint8_t*); uint64_t w%s_enumv(uint64_t);' % (n, n))
 
     def sw(sig, call, void=False):
@@ -258,6 +272,7 @@ def main():
                 d.append('    case %d: return %s;' % (i, call % n))
         d.append('  }\n' + ('' if void else '  return 0;\n') + '}')
     sw('uint64_t w_get(uint64_t fmt, uint64_t fld, uint64_t path, uint8_t* pdu)', 'w%s_get(fld, path, pdu)')
+    sw('uint64_t w_get2(uint64_t fmt, uint64_t fld, uint64_t path, uint8_t* pdu, uint64_t byteidx, uint64_t xorv, uint8_t* out8)', 'w%s_get2(fld, path, pdu, byteidx, xorv, out8)')
     sw('void w_set(uint64_t fmt, uint64_t fld, uint64_t path, uint8_t* pdu, uint64_t v)', 'w%s_set(fld, path, pdu, v)', True)
     sw('uint64_t w_getid(uint64_t fmt, uint8_t* pdu, uint64_t id)', 'w%s_getid(pdu, id)')
     sw('void w_setid(uint64_t fmt, uint8_t* pdu, uint64_t id, uint64_t v)', 'w%s_setid(pdu, id, v)', True)
@@ -265,6 +280,7 @@ def main():
     sw('uint64_t w_linit(uint64_t fmt, uint8_t* pdu, uint64_t arg)', 'w%s_linit(pdu, arg)')
     sw('uint64_t w_lget(uint64_t fmt, uint8_t* pdu, uint64_t id, uint64_t nullval, uint8_t* out8)', 'w%s_lget(pdu, id, nullval, out8)')
     sw('uint64_t w_lset(uint64_t fmt, uint8_t* pdu, uint64_t id, uint64_t v)', 'w%s_lset(pdu, id, v)')
+    sw('uint64_t w_lget_at(uint64_t fmt, uint8_t* pdu, uint64_t id, uint8_t* resultloc)', 'w%s_lget_at(pdu, id, resultloc)')
     sw('uint64_t w_fact(uint64_t fmt, uint64_t k, uint8_t* pdu)', 'w%s_fact(k, pdu)')
     sw('uint64_t w_enumv(uint64_t fmt, uint64_t fld)', 'w%s_enumv(fld)')
     with open(os.path.join(out, 'wrap_disp.c'), 'w') as f:
